@@ -17,7 +17,7 @@ RULE = ('case = sequence of 8-40 operations (get, get_or_compute, forced, raisin
         'every computed value unique. non-trivial = sequence containing a hit after a store AND (a damage op followed by an access, or a '
         'sub-cache/other-key access between store and hit); distinct = hash(op sequence)')
 REQUIRED = ['ops', 'hits', 'computes', 'forced_replacements', 'get_absent', 'get_present', 'raising_computers', 'damage_then_access',
-            'truncations_recovered', 'swaps_reported', 'subcache_ops', 'roundtrips_checked', 'wrong_shape_json_recovered', 'held_values_rechecked', 'forced_with_equal_value_of_other_json_type', 'returned_values_mutated_by_caller']
+            'truncations_recovered', 'swaps_reported', 'subcache_ops', 'roundtrips_checked', 'wrong_shape_json_recovered', 'held_values_rechecked', 'forced_with_equal_value_of_other_json_type', 'returned_values_mutated_by_caller', 'refused_none_results']
 ASSUMPTIONS = ['a damaged file that still loads to exactly the stored value counts as intact',
                'swap (foreign-key file) is only applied to JsonCache, the only cache type that records the key',
                'which exception type reports a foreign-key file is not checked; InMemoryCache is used from one thread']
@@ -102,6 +102,10 @@ def gen_ops(rng, kind):
             ops.append({'op': 'goc', 'key': k, 'sub': sub, 'force': True, 'morph': rng.random() < 0.3})
         elif r < 0.72:
             ops.append({'op': 'goc', 'key': k, 'sub': sub, 'raises': True, 'force': rng.random() < 0.4})
+        elif r < 0.8 and kind == 'json_nonone':
+            # the computation yields None for a cache that refuses None: the call fails and NOTHING is stored (an existing entry stays)
+            # (only on the cache object itself: a sub-cache is created without the option and accepts None -- not judged)
+            ops.append({'op': 'goc', 'key': k, 'sub': [], 'none_value': True, 'force': rng.random() < 0.5})
         elif r < 0.78:
             ops.append({'op': 'mutate_returned'})     # the caller modifies, in place, a value a lookup handed out earlier (its own copy)
         elif kind != 'memory':
@@ -266,6 +270,9 @@ def run_sequence(kind, ops, res: CaseResult):
                     value = mv
                     res.count('forced_with_equal_value_of_other_json_type')
 
+            if op.get('none_value'):
+                value = None
+
             def computer():
                 calls.append(1)
                 if op.get('raises'):
@@ -304,6 +311,26 @@ def run_sequence(kind, ops, res: CaseResult):
                     res.violate(f'{here}: computer called {len(calls)}x, expected once (entry state {state}, force={force}); '
                                 f'returned {short(got)} exc {exc!r}', witness=wit)
                     return
+                if op.get('none_value'):
+                    res.count('refused_none_results')
+                    if exc is None:
+                        res.violate(f'{here}: the computation returned None for a cache created with allow_nones=False, but the call returned {short(got)}', witness=wit)
+                        return
+                    g2 = None
+                    if state == 'foreign':
+                        continue        # (a file recorded for another key is reported by every lookup, before and after)
+                    try:
+                        g2 = c.get(op['key'])
+                    except Exception as e2:
+                        res.violate(f'{here}: after the refused None result `get` raises {type(e2).__name__}: {e2} (the refused value was stored)', witness=wit)
+                        return
+                    if state in ('absent', 'damaged') and g2 is not tc.NO_VALUE and not (state == 'damaged' and tcanon(g2) == tcanon(ent['value'])):
+                        res.violate(f'{here}: the refused None result left an entry: get returns {short(g2)}', witness=wit)
+                        return
+                    if state == 'ok' and (g2 is tc.NO_VALUE or tcanon(g2) != tcanon(ent['value'])):
+                        res.violate(f'{here}: the refused None result of a forced call replaced / removed the stored entry: get returns {short(g2)}, stored {short(ent["value"])}', witness=wit)
+                        return
+                    continue
                 if op.get('raises'):
                     res.count('raising_computers')
                     if not isinstance(exc, Boom):
